@@ -99,7 +99,7 @@ CLAIMED["C12"] = dict(
     design_ref="DESIGN.md section 3, C12",
     note="Trusted: backend idioms are mapped to the same abstract operations (fverif/admodels.py); the jax-only eigenvalue "
     "regularisation C + diag(+-1e-4) is recognised, logged and treated as C (a larger shift is reported); the Lagrange (stress-type) "
-    "models are compared with F in principal axes. Initial moduli vs docstrings (O6) are declined (free-form docstring mathematics). One KNOWN FINDING is reported on the "
+    "models are compared with F in principal axes. Documented initial moduli (O6): the second-order jet of each energy at C = 1 is compared with a frozen table of the docstrings' closed forms (thirteen models, both backends; a model without a documented closed form has no entry). One KNOWN FINDING is reported on the "
     "unchanged tree (known_findings.txt): the MORPH backends pass a non-symmetric matrix to eigvalsh / tensortrax expm and differ by 6 % for "
     "non-coaxial histories; every other violation is still reported. Huge expressions are first compared at an exact rational point.",
     technique="algebraic value numbering of sibling implementations; equality of canonical forms",
